@@ -1512,6 +1512,34 @@ def _null_pruners(u):
     return out
 
 
+def mrg6(units, R, names=None):
+    """RFC 7396 treats every member name alike (the empty name is a name): in the merge-patch code no branch decides on a byte of a
+    member name compared with a constant (`member->string[0] != '\\0'`).  Names go to the comparators and to the lookups as wholes."""
+    from ..dataflow import access
+    u = units['cJSON_Utils.c']
+    fns = [u.functions[n_] for n_ in (names or ('merge_patch', 'generate_merge_patch')) if n_ in u.functions]
+    if not fns:
+        raise AnalysisBroken('MRG6: merge_patch / generate_merge_patch not found')
+    n = 0
+    for fn in fns:
+        cfg = fn.cfg()
+        for nd in cfg.nodes:
+            if nd.kind not in ('branch', 'switch') or nd.expr is None:
+                continue
+            for x in walk(nd.expr):
+                if x.get('k') not in ('idx', 'un') or access(x) is None:
+                    continue
+                base = strip_casts(access(x)[0])
+                while base.get('k') == 'bin' and base['op'] in ('+', '-'):
+                    base = strip_casts(base['l'])
+                if base.get('k') == 'mem' and base['f'] == 'string':
+                    n += 1
+                    R.ob('MRG6', fn, nd.expr, 'no member is treated differently because of a byte of its name', False,
+                         '%s reads %s: a member with that name (the empty name, if the byte is the terminator) is passed over or refused, '
+                         'RFC 7396 knows no such names' % (expr_str(strip_casts(nd.expr))[:60], expr_str(x)[:40]), key='namebyte:%s' % fn.name)
+        R.ob('MRG6', fn, None, 'the branches of %s were examined for reads of name bytes' % fn.name, True, '', key='census:%s' % fn.name)
+
+
 def mrg5(units, R, floor=0):
     """RFC 7396: null means "delete" only as a member of an object of the patch; an array in the patch is a value as a whole and is
     taken over verbatim - null elements and whatever the objects inside it contain.  A function that takes the null children out of
